@@ -379,6 +379,62 @@ def run(ctx):  # noqa: C901, PLR0912, PLR0915
                        f'(and any tree written before) loses them, a second write produces different output', fi=wr, node=c)
     ctx.floor('C05.R4', n_att, 3, 'lxml attach sites in writers')
 
+    # ------------------------------------------------------------------ R5 readers
+    ctx.rule('C05.R5', 'readers: the class of a polymorphic element is resolved from THAT element; a scalar member that is '
+                       'absent in the XML overwrites what the instance held')
+    from engine.cfg import cfg_of
+    n_vc = 0
+    for q in sorted(desc):
+        rd = repo.classes[q].methods.get('get_py_value_from_node')
+        if rd is None:
+            continue
+        g5 = cfg_of(rd)
+        for n, c in g5.nodes_calling('from_node'):
+            recv = c.func.value
+            if not (isinstance(recv, ast.Name) and c.args):
+                continue
+            # where does the class come from?  <x>.value_class_from_node(M)
+            srcs = [v for d in g5.reaching_defs(recv.id).get(n.id, ()) for v in [g5.def_value(d, recv.id)]
+                    if isinstance(v, ast.Call) and call_name(v) == 'value_class_from_node' and v.args]
+            if not srcs:
+                continue
+            n_vc += 1
+            arg_txt = g5.canon_text(n, c.args[0])
+            ok = True
+            for d in g5.reaching_defs(recv.id).get(n.id, ()):
+                v = g5.def_value(d, recv.id)
+                if isinstance(v, ast.Call) and call_name(v) == 'value_class_from_node' and v.args:
+                    ok = ok and g5.canon_text(d, v.args[0]) == arg_txt
+            ctx.ob('C05.R5', f'{repo.classes[q].name}: class of {unparse(c)[:50]}', ok,
+                   f'{repo.classes[q].name}: each element is parsed with the class its own xsi:type selects' if ok else
+                   f'{repo.classes[q].name}: {unparse(c)} parses an element with a class resolved from ANOTHER element '
+                   f'({[unparse(v.args[0]) for v in srcs]}): in a list where only some elements carry an xsi:type substitution the '
+                   f'others are read as the wrong class', fi=rd, node=c)
+    ctx.floor('C05.R5', n_vc, 2, 'polymorphic element readers (value_class_from_node)')
+    base_upd = repo.func(f'{XSTRUCT}._XmlStructureBaseProperty.update_from_node')
+    gb = cfg_of(base_upd)
+    sets = [n for n, c in gb.nodes_calling('setattr')]
+    ok = len(sets) == 1 and not list(gb.facts_at(sets[0]))
+    ctx.ob('C05.R5', 'absent scalar overwrites', ok,
+           'update_from_node of scalar properties assigns what the reader returned unconditionally (None for an absent '
+           'attribute / element)' if ok else
+           '_XmlStructureBaseProperty.update_from_node keeps the previous value when the XML lacks the member: a value the '
+           'constructor or an earlier read put there survives, the instance no longer equals the XML it was read from',
+           fi=base_upd, witness=[list(gb.facts_at(s_)) for s_ in sets])
+    # overriding update_from_node is only allowed to skip the assignment for list properties (an absent list stays empty)
+    for q in sorted(desc):
+        ci = repo.classes[q]
+        up = ci.methods.get('update_from_node')
+        if up is None or up is base_upd:
+            continue
+        is_list = 'List' in ci.name
+        gu = cfg_of(up)
+        cond = [n for n, c in gu.nodes_calling('setattr') if list(gu.facts_at(n))]
+        ctx.ob('C05.R5', f'{ci.name}.update_from_node', is_list or not cond,
+               f'{ci.name}.update_from_node: conditional assignment only for a list property' if is_list or not cond else
+               f'{ci.name}.update_from_node skips the assignment under {[list(gu.facts_at(n)) for n in cond]} although it is '
+               f'not a list property', fi=up)
+
 
 # ---------------------------------------------------------------------- self-test seeds
 from selftest import seed  # noqa: E402
